@@ -71,6 +71,7 @@ type HarnessRun struct {
 	Assumptions  map[string]bool
 	wall         time.Duration
 	merged       int
+	Passing      []*Violation // sampled passing paths (inputs only)
 	activeNs     int64
 	stop         int32
 }
@@ -89,6 +90,7 @@ type Config struct {
 	Verbose      bool
 	MaxViolPerID int
 	BudgetSec    int
+	SamplePass   int // passing paths per harness whose final model is replayed natively (translator validation)
 }
 
 type pathEnd struct {
@@ -534,7 +536,31 @@ func (p *Path) Inconclusive(msg string) {
 	panic(pathEnd{"inconclusive", msg})
 }
 
+// snapshotInputs records the current model's values of every input of the path (used to replay a
+// PASSING path natively: the real build must pass too).
+func (p *Path) snapshotInputs() *Violation {
+	return p.inputsUnder("(passing path)", "", "", p.model)
+}
+
 func (p *Path) violation(id, where, msg string, m Model) {
+	v := p.inputsUnder(id, where, msg, m)
+	if len(p.known) > 0 {
+		v.Known = p.known[len(p.known)-1]
+	}
+	p.run.mu.Lock()
+	defer p.run.mu.Unlock()
+	p.run.ob(idNoLock(id)).Violated++
+	key := id + "|" + v.Known
+	if v.Known == "" {
+		key = id + "|" + where
+	}
+	p.run.violSeen[key]++
+	if p.run.violSeen[key] <= p.cfg.MaxViolPerID {
+		p.run.Violations = append(p.run.Violations, v)
+	}
+}
+
+func (p *Path) inputsUnder(id, where, msg string, m Model) *Violation {
 	ev := p.newEval(m)
 	v := &Violation{Harness: p.run.Name, ID: id, Where: where, Msg: msg, Inputs: map[string]string{}}
 	for _, in := range p.inputs {
@@ -574,20 +600,7 @@ func (p *Path) violation(id, where, msg string, m Model) {
 			v.Inputs[fmt.Sprintf("uf:%s:%d", name, key)] = fmt.Sprintf("%d", val)
 		}
 	}
-	if len(p.known) > 0 {
-		v.Known = p.known[len(p.known)-1]
-	}
-	p.run.mu.Lock()
-	defer p.run.mu.Unlock()
-	p.run.ob(idNoLock(id)).Violated++
-	key := id + "|" + v.Known
-	if v.Known == "" {
-		key = id + "|" + where
-	}
-	p.run.violSeen[key]++
-	if p.run.violSeen[key] <= p.cfg.MaxViolPerID {
-		p.run.Violations = append(p.run.Violations, v)
-	}
+	return v
 }
 
 func idNoLock(s string) string { return s }
@@ -900,6 +913,19 @@ func (w *World) runPath(h *harnessFn, run *HarnessRun, cfg *Config, proc *Proc, 
 	}()
 	p.where = in.where
 	in.runHarness(h)
+	if cfg.SamplePass > 0 && len(p.known) == 0 {
+		run.mu.Lock()
+		want := len(run.Passing) < cfg.SamplePass && (run.PathsDone%7 == 0 || run.PathsDone < 2)
+		run.mu.Unlock()
+		if want {
+			v := p.snapshotInputs()
+			run.mu.Lock()
+			if len(run.Passing) < cfg.SamplePass {
+				run.Passing = append(run.Passing, v)
+			}
+			run.mu.Unlock()
+		}
+	}
 	panic(pathEnd{"done", ""})
 }
 
